@@ -654,6 +654,17 @@ func (ex *Exec) schedPoint(kind string) {
 	me.lastEv = len(ex.schedTrace) - 1
 }
 
+// traceResume records that goroutine g goes on after having been parked (blocked operation, yield,
+// quiesce, sleep) or starts running after its go statement. Natively no gate corresponds to it: the
+// replay's scheduler consumes the event and from then on waits for g to reach its next gate or to
+// finish before it releases anything else, so that the stretch of code g runs here is ordered as it
+// was in the executor.
+func (ex *Exec) traceResume(g *G) {
+	if ex.schedOn {
+		ex.schedTrace = append(ex.schedTrace, schedEv{G: g.id, Kind: "resume"})
+	}
+}
+
 func (ex *Exec) inconclHint(s string) {
 	if ex.inconcl == "" {
 		ex.inconcl = s
@@ -671,6 +682,7 @@ func (ex *Exec) blockUntil(f func() bool) {
 	g.waitFn = f
 	ex.reschedule()
 	g.waitFn = nil
+	ex.traceResume(g)
 }
 
 func (ex *Exec) spawn(fn Value, args []Value, call *ssa.CallCommon) {
@@ -712,6 +724,7 @@ func (ex *Exec) spawn(fn Value, args []Value, call *ssa.CallCommon) {
 			}
 			ex.reschedule()
 		}()
+		ex.traceResume(g)
 		ex.callValue(fn, args, call)
 	}()
 }
